@@ -68,7 +68,7 @@ theorem genP_groups (fuel : Nat) (ih : GenP c pv rank F fuel) :
         simp only [Prod.mk.injEq] at h
         exact absurd h.1.symm hr
 
-theorem genP_field (hw : flatWorld c.world = true) (fuel : Nat) (ih : GenP c pv rank F fuel) :
+theorem genP_field (fuel : Nat) (ih : GenP c pv rank F fuel) :
     ∀ dfr rt src p fid fp fd st mst rS stS, FpOK c.schema rt (NodeOK c pv rank) fp → fp.fieldDef = some fd →
     execField c (fuel + 1) dfr rt src p fd fp.fieldNodes st = (rS, stS) → rS ≠ .fuelOut → stS.kfThunk = st.kfThunk →
     match rS with
@@ -88,7 +88,6 @@ theorem genP_field (hw : flatWorld c.world = true) (fuel : Nat) (ih : GenP c pv 
     generalize hst0 : ({ st with log := _ :: st.log } : St) = st0 at h
     have hk0 : st0.kfThunk = st.kfThunk := by rw [← hst0]
     generalize hmst0 : mst.logEv _ = mst0
-    have hof := outcome_flat hw src fd.name
     cases hout : c.world.outcome src fd.name with
     | fail =>
       simp only [hout] at h ⊢
@@ -101,7 +100,6 @@ theorem genP_field (hw : flatWorld c.world = true) (fuel : Nat) (ih : GenP c pv 
         exact ⟨_, rfl, .leaf _⟩
     | value v =>
       simp only [hout] at h ⊢
-      rw [hout] at hof
       have hk1 := kfExt_complete c fuel dfr fd.type rt fd.name fp.fieldNodes p v st0
       rcases hS : complete c fuel dfr fd.type rt fd.name fp.fieldNodes p v st0 with ⟨r1, st1⟩
       rw [hS] at h hk1
@@ -111,7 +109,7 @@ theorem genP_field (hw : flatWorld c.world = true) (fuel : Nat) (ih : GenP c pv 
       | ok j =>
         simp only [Prod.mk.injEq] at h
         obtain ⟨rfl, rfl⟩ := h
-        have hc := ih.complete dfr fd.type rt fd.name fid fp p v st0 mst0 _ _ hfp.nodes hof hS (by simp) (by rw [hkf, hk0])
+        have hc := ih.complete dfr fd.type rt fd.name fid fp p v st0 mst0 _ _ hfp.nodes hS (by simp) (by rw [hkf, hk0])
         simp only [CompleteRel, hM1] at hc
         obtain ⟨x, hx, hsv⟩ := hc
         subst hx
@@ -122,7 +120,7 @@ theorem genP_field (hw : flatWorld c.world = true) (fuel : Nat) (ih : GenP c pv 
           by_cases hnn : fd.type.isNonNull = true
           · simp only [hnn, if_true, Prod.mk.injEq] at h; rw [h.2, hkf, hk0]
           · simp only [hnn, Bool.false_eq_true, if_false, Prod.mk.injEq] at h; rw [h.2, hkf, hk0]
-        have hc := ih.complete dfr fd.type rt fd.name fid fp p v st0 mst0 _ _ hfp.nodes hof hS (by simp) hkS
+        have hc := ih.complete dfr fd.type rt fd.name fid fp p v st0 mst0 _ _ hfp.nodes hS (by simp) hkS
         simp only [CompleteRel, hM1] at hc
         by_cases hnn : fd.type.isNonNull = true
         · simp only [hnn, if_true, Prod.mk.injEq] at h
@@ -141,14 +139,14 @@ theorem genP_field (hw : flatWorld c.world = true) (fuel : Nat) (ih : GenP c pv 
 
 theorem genP_items (fuel : Nat) (ih : GenP c pv rank F fuel) :
     ∀ dfr item rt fname fid fp p xs i accS acc st mst rS stS, (∀ x ∈ fp.nodes, NodeOK c pv rank x.1 x.2) →
-    flatVs xs = true → SVl c pv rank F acc accS →
+    SVl c pv rank F acc accS →
     completeItems c (fuel + 1) dfr item rt fname fp.fieldNodes p xs i accS st = (rS, stS) → rS ≠ .fuelOut →
     stS.kfThunk = st.kfThunk →
     match rS with
     | .ok js => ∃ ys, (mItems c alt0 (fuel + 1) dfr item rt fid fp p xs i acc mst).1 = .ok ys ∧ SVl c pv rank F ys js
     | .fail => (mItems c alt0 (fuel + 1) dfr item rt fid fp p xs i acc mst).1 = .fail
     | .fuelOut => False := by
-  intro dfr item rt fname fid fp p xs i accS acc st mst rS stS hn hxs hacc h hr hkf
+  intro dfr item rt fname fid fp p xs i accS acc st mst rS stS hn hacc h hr hkf
   cases xs with
   | nil =>
     simp only [completeItems, Prod.mk.injEq] at h
@@ -156,7 +154,6 @@ theorem genP_items (fuel : Nat) (ih : GenP c pv rank F fuel) :
     simp only [mItems]
     exact ⟨acc, rfl, hacc⟩
   | cons x xs =>
-    simp only [flatVs, Bool.and_eq_true] at hxs
     simp only [completeItems] at h
     simp only [mItems]
     have hk1 := kfExt_complete c fuel dfr item rt fname fp.fieldNodes (p ++ [.idx i]) x st
@@ -171,18 +168,18 @@ theorem genP_items (fuel : Nat) (ih : GenP c pv rank F fuel) :
       rw [h] at hk2
       simp only at hk2
       obtain ⟨hkA, hkB⟩ := KfExt.same hk1 hk2 hkf
-      have hc := ih.complete dfr item rt fname fid fp (p ++ [.idx i]) x st mst _ _ hn hxs.1 hS (by simp) hkA
+      have hc := ih.complete dfr item rt fname fid fp (p ++ [.idx i]) x st mst _ _ hn hS (by simp) hkA
       simp only [CompleteRel, hM1] at hc
       obtain ⟨y, hy, hsv⟩ := hc
       subst hy
       simp only [hM1]
-      exact ih.items _ _ _ _ _ _ _ _ _ _ _ _ mst1 _ _ hn hxs.2 (svl_append hsv hacc) h hr hkB
+      exact ih.items _ _ _ _ _ _ _ _ _ _ _ _ mst1 _ _ hn (svl_append hsv hacc) h hr hkB
     | fail =>
       simp only at h
       by_cases hnn : item.isNonNull = true
       · simp only [hnn, if_true, Prod.mk.injEq] at h
         obtain ⟨rfl, rfl⟩ := h
-        have hc := ih.complete dfr item rt fname fid fp (p ++ [.idx i]) x st mst _ _ hn hxs.1 hS (by simp) hkf
+        have hc := ih.complete dfr item rt fname fid fp (p ++ [.idx i]) x st mst _ _ hn hS (by simp) hkf
         simp only [CompleteRel, hM1] at hc
         rcases hc with hc | ⟨cl, _, _, hnull, _⟩
         · subst hc; simp only [hM1, hnn, if_true]
@@ -192,15 +189,15 @@ theorem genP_items (fuel : Nat) (ih : GenP c pv rank F fuel) :
         rw [h] at hk2
         simp only at hk2
         obtain ⟨hkA, hkB⟩ := KfExt.same hk1 hk2 hkf
-        have hc := ih.complete dfr item rt fname fid fp (p ++ [.idx i]) x st mst _ _ hn hxs.1 hS (by simp) hkA
+        have hc := ih.complete dfr item rt fname fid fp (p ++ [.idx i]) x st mst _ _ hn hS (by simp) hkA
         simp only [CompleteRel, hM1] at hc
         rcases hc with hc | ⟨cl, hcl, _, _, hwit⟩
         · subst hc
           simp only [hM1, hnn, Bool.false_eq_true, if_false]
-          exact ih.items _ _ _ _ _ _ _ _ _ _ _ _ mst1 _ _ hn hxs.2 (svl_append (.leaf _) hacc) h hr hkB
+          exact ih.items _ _ _ _ _ _ _ _ _ _ _ _ mst1 _ _ hn (svl_append (.leaf _) hacc) h hr hkB
         · subst hcl
           simp only [hM1]
-          exact ih.items _ _ _ _ _ _ _ _ _ _ _ _ mst1 _ _ hn hxs.2 (svl_append (.deferred hwit) hacc) h hr hkB
+          exact ih.items _ _ _ _ _ _ _ _ _ _ _ _ mst1 _ _ hn (svl_append (.deferred hwit) hacc) h hr hkB
     | fuelOut =>
       simp only [Prod.mk.injEq] at h
       exact absurd h.1.symm hr
